@@ -2,7 +2,10 @@
 
 package hap
 
-import "net"
+import (
+	"net"
+	"sync"
+)
 
 // Verification hooks, only compiled with the "verif" build tag. A deterministic
 // simulator sets these variables to intercept the points where goroutines
@@ -33,3 +36,13 @@ func verifOrderConns(cs []net.Conn) []net.Conn {
 
 // VerifUnderlying returns the connection wrapped by a hap connection.
 func VerifUnderlying(con *Connection) net.Conn { return con.connection }
+
+// VerifBeforeLock, when set, is called before a connection takes its write mutex, so that
+// a cooperative scheduler can park the goroutine with no lock held.
+var VerifBeforeLock func(m *sync.Mutex)
+
+func verifBeforeLock(m *sync.Mutex) {
+	if VerifBeforeLock != nil {
+		VerifBeforeLock(m)
+	}
+}
